@@ -535,10 +535,10 @@ def run(ctx):
     _variants(ctx, "disc", case_disc, 64, 512, [
         disc_payloads(mode, back, failures=fl) for mode in ("exec", "lin") for back in backs for fl in (False, True)
     ] + [disc_payloads(mode, "process", one_disc=True) for mode in ("exec", "lin")])
-    _variants(ctx, "chain", case_chain, 24, 256, [chain_payloads(back) for back in backs])
-    _variants(ctx, "doe", case_doe, 32, 256, [doe_payloads(r, j) for r in (False, True) for j in (False, True)])
-    _timed(ctx, "fd", lambda: ctx.drive("fd", fd_payloads(), case_fd, quick=20, thorough=200))
-    _variants(ctx, "cache", case_cache, 40, 320, [cache_payloads(back, lin) for back in backs for lin in (False, True)])
+    _variants(ctx, "chain", case_chain, 24, 160, [chain_payloads(back) for back in backs])
+    _variants(ctx, "doe", case_doe, 32, 200, [doe_payloads(r, j) for r in (False, True) for j in (False, True)])
+    _timed(ctx, "fd", lambda: ctx.drive("fd", fd_payloads(), case_fd, quick=20, thorough=120))
+    _variants(ctx, "cache", case_cache, 40, 240, [cache_payloads(back, lin) for back in backs for lin in (False, True)])
 
 
 def _variants(ctx, name, case_fn, quick, thorough, strategies):
